@@ -409,6 +409,8 @@ class WorkAmount(Contract):
                     if mode == "select" and nw != 2:
                         continue
                     out.append(dict(t=t, nw=nw, mode=mode))
+        out.append(dict(t="Vm", nw=1, mode="static", default_productivity=True))
+        out.append(dict(t="Fo", nw=2, mode="static", default_productivity=True))
         return out
 
     def scenario(self, ps, P, case):
@@ -425,6 +427,9 @@ class WorkAmount(Contract):
         t = getattr(ps, cls)(**kw)
         workers = []
         for i in range(case["nw"]):
+            if case.get("default_productivity"):
+                workers.append(ps.Worker(name=f"w{i+1}"))  # declared default: productivity 1
+                continue
             P.assume(P.int(f"prod{i+1}") >= 0)
             workers.append(ps.Worker(name=f"w{i+1}", productivity=P.int(f"prod{i+1}")))
         sw = None
@@ -446,7 +451,8 @@ class WorkAmount(Contract):
         wa = T(P.int("wa"))
         out = []
         if workers:
-            total = z3.Sum([T(w.productivity) * (busy(w, t)[1] - busy(w, t)[0]) for w in workers])
+            prod = (lambda w: z3.IntVal(1)) if case.get("default_productivity") else (lambda w: T(w.productivity))
+            total = z3.Sum([prod(w) * (busy(w, t)[1] - busy(w, t)[0]) for w in workers])
             if case["mode"] == "select":
                 # only held (selected) workers contribute: the others have an empty interval
                 sel = [ctx["sw"]._selection_dict[w] for w in workers]
